@@ -24,7 +24,7 @@ CASES = {
     # name: (driver, regex of scenario functions `int|void f(int, ...)`, observation globals to skip, {parameter-name regex: (lo, hi)} for SHAPE
     #        parameters (script length, access style, ...; every other parameter is a VALUE: edge values + pseudo-random 32-bit ints))
     # skipped globals: addresses, and coroutine frame sizes (legitimately differ between clang -O0 and g++ -O2)
-    'c04_async': ('c04_async.cpp', r'^drive_(start_value|start_throw|start_promise|start_claimed|detach|never_started|join|future_ctor|susp_resolved_later|susp_dropped|nested|void|join_throw|join_void|join_void_throw|alloc_value|alloc_never_started)$', r'_ptr$|_sz$', {}),
+    'c04_async': ('c04_async.cpp', r'^drive_(start_value|start_throw|start_promise|start_claimed|detach|never_started|join|future_ctor|susp_resolved_later|susp_dropped|nested|void|join_throw|join_void|join_void_throw|alloc_value|alloc_never_started|susp_exception|susp_promise|susp_detached|susp_detached_dropped|detach_throw|susp_void|susp_twice|susp_ready|nested_void|nested_throw|nested_catch|nested_susp|nested_susp_dropped|nested3)$', r'_ptr$|_sz$', {}),
     'c13_generator': ('c13_generator.cpp', r'^drive_(next|range_for|iter_postfix|future|mixed|throw|arg_next|arg_future|early|move|co_await|await_future|await_ready|await_co_await|after_exception|mixed5|throw_mixed)$', r'^g_frame_kind$',
                       {r'^(k|pos)$': (0, 3), r'^stop$': (0, 4), r'^(style|s[0-3])$': (0, 4)}),
     'c14_aggregator': ('c14_aggregator.cpp', r'^drive_(aggr|aggr_arg)$', r'^g_frame_kind$',
